@@ -310,6 +310,12 @@ func (fv *FV) applyContract(st *State, spec *FuncSpec, fn *ssa.Function, c *ssa.
 			}
 		}
 	}
+	// ghost variables of the callee are existentially quantified for the caller
+	for _, g := range spec.GhostAt {
+		proto := pre.Eval(g.Clause.E)
+		gv := fv.freshConst(st, "ghost_"+g.Name, proto.Sort, proto.T)
+		post.vars[g.Name] = gv
+	}
 	for _, cl := range spec.Ensures {
 		st.assume(post.Eval(cl.E))
 	}
@@ -321,7 +327,31 @@ func (fv *FV) applyContract(st *State, spec *FuncSpec, fn *ssa.Function, c *ssa.
 	for _, e := range errs {
 		fv.outsidef("contract error at call of %s: %s", spec.Key, e)
 	}
+	fv.bindGhosts(st, lastPart(spec.Key))
 	return res
+}
+
+// bindGhosts: ghost NAME = EXPR after CALLEE
+func (fv *FV) bindGhosts(st *State, callee string) {
+	if fv.spec == nil || st.frame == nil || st.frame.ID != 0 {
+		return
+	}
+	for _, g := range fv.spec.GhostAt {
+		if g.Callee != callee {
+			continue
+		}
+		var errs []string
+		env := fv.stateEnv(st, &errs)
+		env.cells = fv.cellLookup(st)
+		t := fv.def(st, "ghost_"+g.Name, env.Eval(g.Clause.E))
+		if st.ghosts == nil {
+			st.ghosts = map[string]Term{}
+		}
+		if _, done := st.ghosts[g.Name]; !done {
+			st.ghosts[g.Name] = t
+		}
+		fv.reportErrs(errs)
+	}
 }
 
 func lastPart(s string) string {
